@@ -21,7 +21,7 @@ RULE = ("every arrangement is executed on the real backend()/get_user_command()/
         "input is whole lines); deviations (budget B, each costs 1): single-character mode (get_char, re-armed by its "
         "callback) per network user, one special first line {`m`: a verb that calls command() three times, `q`: the user "
         "destructs itself in its command} of one user, one mid-cycle event {a new user connects in cycle 1..4 and sends a "
-        "line in the next cycle, a live user hangs up (EVENT_CLOSE) in cycle 1..4}. 4 arrival cycles + 1 for the late "
+        "line in the next cycle, a live user hangs up (EVENT_CLOSE) in cycle 1..4} (quick tier: mid-cycle events in cycles 1..2). 4 arrival cycles + 1 for the late "
         "user's line + quiet cycles until every queue is empty (<= 6). Per cycle: <= 1 buffered command per user; every "
         "connected user with a complete command buffered when the command phase starts is served in that cycle; per-user "
         "order and content; the three command() calls run inside the turn of `m`; the wait is entered with timeout 0 while "
@@ -36,7 +36,7 @@ ASSUME = ["a command counts as buffered from the cycle whose process_io() receiv
 def run(ck):
     exe = build(ck)["h_c12"]
     if ck.tier == "quick":
-        ck.explore(exe, [], "b1", budget=1, deadline_s=190)
+        ck.explore(exe, ["--midcycles=2"], "b1-mid2", budget=1, deadline_s=190)
     else:
         ck.explore(exe, [], "b2", budget=2, deadline_s=2000)
     cov = vlib.mc_coverage(ck.parts, RULE, extra={
